@@ -168,13 +168,18 @@ def run(gen, seed, n_ops=60):
                 await H.probe(log, "set_power", w.at.air_conditioners[0].set_power(
                     api.AcPowerControl.TURN_ON))
                 c.transport.peer_data(raw[k:])
+                await quiesce(loop)
+                # (judged at this very instant: during the settling time of a session with
+                # slow subscribers a heartbeat whose answer was lost with an earlier
+                # connection may legitimately reset this one)
+                kept = w.conn() is c
                 await settle()
                 w.console.knobs.apply_commands = True
                 got = [cmd["kind"] for (t, cc, f, cmd) in w.console.frames[n0:]
                        if cmd["kind"] not in REQUEST_KINDS]
-                if w.conn() is not c or got != ["ac_control"]:
+                if not kept or got != ["ac_control"]:
                     v("C13", "frame-or-command-lost-when-sending-while-receiving",
-                      connection_kept=w.conn() is c, commands_seen=got, cut=k, frame=raw)
+                      connection_kept=kept, commands_seen=got, cut=k, frame=raw)
                 bump("sends_while_receiving")
                 compare("C10", "after split push")
                 continue
